@@ -114,11 +114,8 @@ def judge(ctx: core.Ctx, case: dict[str, Any]) -> None:
         ctx.count("non_liquid_error_forwarded_to_C02")
         return
     bkey = outcome_key(base)
-    try:
-        U = len(base.value.encode("utf-8")) if base.ok else 64
-    except UnicodeEncodeError:
-        ctx.unspecified("lone-surrogate-in-output-has-no-utf8-size")
-        return
+    # U only chooses the values of the sweep (it is not a verdict), so a lone surrogate may be counted any reasonable way
+    U = len(base.value.encode("utf-8", "surrogatepass")) if base.ok else 64
     depth = max([block_depth(case["source"])] + [block_depth(p) for p in case["partials"].values()])
     sweeps = {
         "loop_iteration_limit": used["loop"],
@@ -225,6 +222,10 @@ HAND = [
 def cases(ctx: core.Ctx):
     for h in HAND:
         yield dict(h, data=V.enc({"xs": [1, 2, 3]}))
+    # strings that have no UTF-8 encoding (lone surrogates) written under an output limit
+    for src in ("{{ s }}", "a{{ s }}b{{ s }}", "{% for i in (1..3) %}{{ s }}{% endfor %}", "{% capture c %}{{ s }}{% endcapture %}{{ c }}{{ c | size }}"):
+        for sv in ("\ud800", "x\udfffy", "\ud800\ud800"):
+            yield {"source": src, "partials": {}, "data": V.enc({"s": sv, "xs": [1]})}
     rng = ctx.rng("cases")
     for _ in range(ctx.budget(1200, 150_000)):
         yield gen_case(rng)
